@@ -52,16 +52,17 @@ Theorem shared_sink_races : exists Pl sched s t1 t2,
 Proof. exact shared_sink_races_l. Qed.
 Print Assumptions shared_sink_races.
 
-(* (5) Composite logger: for every initial member list, every program mix of Log / LogError / Append / SetLogSource,
-   every schedule: whenever nobody holds the composite's lock, every member holds exactly the messages the composite
-   accepted since that member joined (all of them for the initial members; the output stream is filtered out for a
-   quiet member), in the order of acceptance — each exactly once; and every producer's Log calls are accepted in its
-   own order (accepted ++ still-to-issue = its program). *)
-Theorem multi_delivers_all : forall (quiets : list bool) (Pl : list (list mop)) (sched : list tid) (s : mstate),
-  mrun (minit quiets Pl) sched = Some s -> mlock s = None ->
-  (forall mb, In mb (members s) -> m_sink mb = expected_sink mb (glog s)) /\
-  (forall j q, nth_error quiets j = Some q ->
-     exists mb, nth_error (members s) j = Some mb /\ m_joined mb = 0 /\ m_quiet mb = q) /\
+(* (5) Composite logger: for every initial member list (each member quiet or not, healthy or FAILING every k-th
+   write, in any position), every program mix of Log / LogError / Append / SetLogSource, every schedule: whenever
+   nobody holds the composite's lock, every HEALTHY member holds exactly the messages the composite accepted since
+   that member joined (all of them for the initial members; the output stream is filtered out for a quiet member),
+   in the order of acceptance — each exactly once, whatever the members before or after it do (a failing member
+   does not stop the loop); and every producer's Log calls are accepted in its own order. *)
+Theorem multi_delivers_all : forall (specs : list (bool * nat)) (Pl : list (list mop)) (sched : list tid) (s : mstate),
+  mrun (minit specs Pl) sched = Some s -> mlock s = None ->
+  (forall mb, In mb (members s) -> m_failmod mb = 0 -> m_sink mb = expected_sink mb (glog s)) /\
+  (forall j q, nth_error specs j = Some q ->
+     exists mb, nth_error (members s) j = Some mb /\ m_joined mb = 0 /\ m_quiet mb = fst q /\ m_failmod mb = snd q) /\
   (forall t, gproj t (glog s) ++ mpending s t = mlogs_of (nth t Pl [])).
 Proof. exact multi_delivers_all_l. Qed.
 Print Assumptions multi_delivers_all.
@@ -116,7 +117,15 @@ Example ring_lapping_example :
 Proof. vm_compute. auto. Qed.
 
 Example multi_example :
-  exists s, mrun (minit [false; true] [[MLog SOut [1]%Z; MAppend false; MLog SErr [2]%Z]; [MLog SErr [3]%Z]])
+  exists s, mrun (minit [(false, 0); (true, 0)] [[MLog SOut [1]%Z; MAppend false; MLog SErr [2]%Z]; [MLog SErr [3]%Z]])
                  [0;0;0;0; 0;0; 1;1;1;1;1; 0;0;0;0;0] = Some s /\ mlock s = None /\
             map m_sink (members s) = [[(0, [1%Z]); (1, [3%Z]); (0, [2%Z])]; [(1, [3%Z]); (0, [2%Z])]; [(1, [3%Z]); (0, [2%Z])]].
+Proof. eexists. split; [vm_compute; reflexivity|]. split; reflexivity. Qed.
+
+(* a member that fails every 2nd write sits BETWEEN two healthy members: both healthy members hold everything *)
+Example multi_failing_member_example :
+  exists s, mrun (minit [(false, 0); (false, 2); (false, 0)] [[MLog SOut [1]%Z; MLog SErr [2]%Z; MLog SOut [3]%Z]])
+                 (repeat 0 15) = Some s /\ mlock s = None /\
+            map m_sink (members s) = [[(0, [1%Z]); (0, [2%Z]); (0, [3%Z])]; [(0, [1%Z]); (0, [3%Z])];
+                                      [(0, [1%Z]); (0, [2%Z]); (0, [3%Z])]].
 Proof. eexists. split; [vm_compute; reflexivity|]. split; reflexivity. Qed.
